@@ -189,4 +189,14 @@ example : (match frameOf [255, 248, 105, 8, 0, 0, 29, 0, 0, 0, 160, 39] with
     | some f => frameWfB none f && (f.serialize == [255, 248, 105, 8, 0, 0, 29, 0, 0, 0, 160, 39])
     | none => false) = true := by decide +kernel
 
+/-- non-vacuity on a frame the real encoder produced (12 stereo samples at 16 bits, `lpc=2`, mid/side allowed: bytes
+    `fff86988000b2717803200dc02940229614d0d0c24000a00cc882e12a4a92ad682`): its parse is in the domain of the theorem, it is the serialization of its parse, and the decoder model
+    returns the samples that were encoded -/
+example : (match frameOf [255, 248, 105, 136, 0, 11, 39, 23, 128, 50, 0, 220, 2, 148, 2, 41, 97, 77, 13, 12, 36, 0, 10, 0, 204, 136, 46, 18, 164, 169, 42, 214, 130] with
+    | some f => frameWfB none f && (f.serialize == [255, 248, 105, 136, 0, 11, 39, 23, 128, 50, 0, 220, 2, 148, 2, 41, 97, 77, 13, 12, 36, 0, 10, 0, 204, 136, 46, 18, 164, 169, 42, 214, 130])
+        && (match decodeFrame .release none [255, 248, 105, 136, 0, 11, 39, 23, 128, 50, 0, 220, 2, 148, 2, 41, 97, 77, 13, 12, 36, 0, 10, 0, 204, 136, 46, 18, 164, 169, 42, 214, 130] with
+            | .ok d => d.channels == [[100, 220, 330, 420, 480, 510, 500, 460, 390, 300, 190, 70], [90, 200, 310, 400, 470, 500, 495, 450, 385, 290, 185, 60]]
+            | .error _ => false)
+    | none => false) = true := by decide +kernel
+
 end Flac.C01
